@@ -324,6 +324,19 @@ package util
 //@   loop 1 vars buf []byte, res []byte
 //@   loop 1 invariant spec_fresh(res)
 //@   loop 1 decreases len(buf)
+// C09: for dot-free data the result has no empty label: it neither starts nor ends with a dot and has no two
+// dots in a row (each dot follows a non-dot and is followed by at least one more octet); no data octet is lost
+// in count (the result is at least as long as the input)
+//@   property C09
+//@   requires forall i :: 0 <= i && i < len(buf) ==> buf[i] != '.'                                   :data_has_no_dots
+//@   ensures len(buf) > 0 ==> len(res) >= len(buf) && res[len(res)-1] != '.' && res[0] != '.'        :no_leading_or_trailing_dot
+//@   ensures forall p :: 0 <= p && p < len(res) && res[p] == '.' ==> p > 0 && res[p-1] != '.'          :no_two_dots_in_a_row
+//@   ensures len(buf) == 0 ==> len(res) == 0
+//@   loop 1 invariant (len(buf) > 0 || len(old(buf)) == 0) && len(buf) <= len(old(buf)) && spec_sameslice(buf, old(buf)[len(old(buf))-len(buf):])
+//@   loop 1 invariant forall i :: 0 <= i && i < len(buf) ==> buf[i] != '.'
+//@   loop 1 invariant len(res) >= len(old(buf)) - len(buf) && (len(res) == 0) == (len(buf) == len(old(buf)))
+//@   loop 1 invariant len(res) > 0 ==> res[0] != '.'
+//@   loop 1 invariant forall p :: 0 <= p && p < len(res) && res[p] == '.' ==> p > 0 && res[p-1] != '.'
 
 //@ func WrapDnsResponse
 //@   property C10, C12
